@@ -36,9 +36,9 @@ func init() {
 	Extra["seqseg"] = seqSegMain
 	register(&Prop{
 		ID: "C05", Level: "exploration",
-		Rule: "seeded histories (autocommit writes/deletes, transactions committed, rolled back and left open) cut into segments by Close+Open, run in four process configurations: (a) one process, one database; (b) segment 0 in a previous process, the rest in a fresh process that opens another, fresh database first (low global sequence counter, high persisted sequences); (c) two populated databases interleaved in one process; (d) every segment in its own fresh process. After every step and after every reopen all keys and GetKeys are probed against the reference model (reopen = open transactions vanish, nothing else changes); after the last reopen every key is overwritten, probed, the database reopened twice (same and new process) and probed again. evaluations = calls compared; distinct_nontrivial = distinct (configuration, history) pairs that completed with >=2 reopens and overwrites after a reopen",
+		Rule:        "seeded histories (autocommit writes/deletes, transactions committed, rolled back and left open) cut into segments by Close+Open, run in four process configurations: (a) one process, one database; (b) segment 0 in a previous process, the rest in a fresh process that opens another, fresh database first (low global sequence counter, high persisted sequences); (c) two populated databases interleaved in one process; (d) every segment in its own fresh process. After every step and after every reopen all keys and GetKeys are probed against the reference model (reopen = open transactions vanish, nothing else changes); after the last reopen every key is overwritten, probed, the database reopened twice (same and new process) and probed again. evaluations = calls compared; distinct_nontrivial = distinct (configuration, history) pairs that completed with >=2 reopens and overwrites after a reopen",
 		Assumptions: []string{"reference model refmodel"},
-		Roles: map[string]Role{"main": {N: func(t string) int { return tierN(t, 48, 800) }, Case: c05Case, Batch: 1}},
+		Roles:       map[string]Role{"main": {N: func(t string) int { return tierN(t, 48, 800) }, Case: c05Case, Batch: 1}},
 	})
 }
 
@@ -163,7 +163,7 @@ func c05History(seed int64, idx int, tier string) []seqrun.Step {
 	p := seqrun.Profile{
 		Steps: tierN(tier, 36, 60), Keys: keys, Lens: []int{14, 14, 5000}, MaxOpen: 3, TxBias: 45,
 		TagPrefix: fmt.Sprintf("h%d-", idx),
-		W: map[string]int{"begin": 8, "set": 30, "delete": 6, "commit": 8, "rollback": 3, "reopen": 4, "collect": 2, "drain": 1, "create": 3, "setreader": 3},
+		W:         map[string]int{"begin": 8, "set": 30, "delete": 6, "commit": 8, "rollback": 3, "reopen": 4, "collect": 2, "drain": 1, "create": 3, "setreader": 3},
 	}
 	steps := seqrun.Generate(rng, p)
 	// make sure there is a reopen in the first third, then the overwrite phase
